@@ -7,7 +7,8 @@ package main
 //   ((ver...) (action...) (final...))
 //     action = ((tid...) kobs (hobs...))   model schedule entries of one harness action + what was seen
 //     final  = (dial connack disc closed left) per connection, seen by the client at the end
-// tids of the model: 0 closer, 1 accept loop, 2+i client i, 2+n+i handler i.
+// tids of the model: 0 closer, 1 accept loop, 2+i client i (dial, send CONNECT), 2+n+i handler i,
+// 2+2n+i client i going away.
 
 import (
 	"fmt"
@@ -40,6 +41,8 @@ type shConn struct {
 	dial   int // 0 not dialed, 1 connected, 2 refused
 	key    string
 	left   bool
+	rest   []byte // part of the CONNECT packet not yet sent
+	sent   bool   // the CONNECT packet has been sent completely
 	connack, disc, closed bool
 }
 
@@ -129,7 +132,12 @@ func (r *shRun) hobs(i int) int {
 	case at == "attach.readReturned":
 		return 5
 	}
-	return 4
+	for _, p := range r.ctl.Passed(c.key) {
+		if p == "attach.afterInherit" {
+			return 4 // in the read loop
+		}
+	}
+	return 7 // in readConnectionPacket, waiting for the CONNECT
 }
 
 func (r *shRun) record(tids []int) {
@@ -146,7 +154,8 @@ func (r *shRun) record(tids []int) {
 // endSet: the closer has passed CAS(end, 0, 1)
 func (r *shRun) endSet() bool { return r.kobs() != 0 }
 
-func (r *shRun) dial(i int) {
+// dial: mode 0 sends the CONNECT at once, 1 sends nothing, 2 sends the first half of it.
+func (r *shRun) dial(i int, mode int) {
 	c := r.conns[i]
 	if c.dial != 0 {
 		return
@@ -164,7 +173,18 @@ func (r *shRun) dial(i int) {
 	if err != nil {
 		panic(err)
 	}
-	_, _ = sock.Write(data)
+	entries := []int{2 + i}
+	switch mode {
+	case 0:
+		_, _ = sock.Write(data)
+		c.sent = true
+		entries = append(entries, 2+i)
+	case 1:
+		c.rest = data
+	default:
+		_, _ = sock.Write(data[:len(data)/2])
+		c.rest = data[len(data)/2:]
+	}
 	wait := shTimeout
 	expect := !r.endSet()
 	if !expect {
@@ -174,18 +194,43 @@ func (r *shRun) dial(i int) {
 	if expect && !got && r.hung == "" {
 		r.hung = "no handler for an accepted connection"
 	}
-	r.record([]int{2 + i, 1, 1, 1})
+	r.record(append(entries, 1, 1, 1))
+}
+
+// send: the client sends (the rest of) its CONNECT.
+func (r *shRun) send(i int) {
+	c := r.conns[i]
+	if c.dial != 1 || c.left || c.sent {
+		return
+	}
+	waiting := r.hobs(i) == 7
+	_, _ = c.sock.Write(c.rest)
+	c.sent = true
+	entries := []int{2 + i}
+	if waiting {
+		if !r.ctl.WaitParked(c.key, shTimeout) && r.hung == "" {
+			r.hung = "handler did not go on after the CONNECT arrived"
+		}
+		entries = append(entries, 2+r.n+i)
+	} else {
+		time.Sleep(time.Millisecond)
+	}
+	r.record(entries)
 }
 
 func (r *shRun) handlerStep(i int) {
 	c := r.conns[i]
+	entries := []int{2 + r.n + i}
 	if c.key != "" {
 		_, at, _ := r.ctl.State(c.key)
+		if at == "attach.start" {
+			entries = append(entries, 2+r.n+i) // ClientsWg.Add, then readConnectionPacket (may block)
+		}
 		if at != "" {
 			r.ctl.Release(c.key)
 		}
 	}
-	r.record([]int{2 + r.n + i})
+	r.record(entries)
 }
 
 func (r *shRun) leave(i int) {
@@ -194,16 +239,20 @@ func (r *shRun) leave(i int) {
 		return
 	}
 	c.left = true
-	serving := r.hobs(i) == 4
+	h := r.hobs(i)
 	_ = c.sock.Close()
-	if serving {
+	entries := []int{2 + 2*r.n + i}
+	if h == 4 || h == 7 {
 		if !r.ctl.WaitParked(c.key, shTimeout) && r.hung == "" {
 			r.hung = "handler did not return from Read after the client left"
+		}
+		if h == 7 {
+			entries = append(entries, 2+r.n+i) // readConnectionPacket fails, the handler returns
 		}
 	} else {
 		time.Sleep(time.Millisecond)
 	}
-	r.record([]int{2 + i})
+	r.record(entries)
 }
 
 func (r *shRun) closerStep() {
@@ -357,7 +406,8 @@ func (r *shRun) emit(out *sx.Out) {
 	out.Case(sx.L{vs, as, fs})
 }
 
-// shOp: one harness action. kind 0 dial, 1 handler step, 2 closer step, 3 leave.
+// shOp: one harness action. kind 0 dial (CONNECT sent at once), 1 handler step, 2 closer step,
+// 3 leave, 4 dial sending nothing, 5 dial sending half of the CONNECT, 6 send (the rest of) the CONNECT.
 type shOp struct{ kind, i int }
 
 func runShutdownCase(out *sx.Out, vers []byte, ops []shOp) {
@@ -365,7 +415,13 @@ func runShutdownCase(out *sx.Out, vers []byte, ops []shOp) {
 	for _, op := range ops {
 		switch op.kind {
 		case 0:
-			r.dial(op.i)
+			r.dial(op.i, 0)
+		case 4:
+			r.dial(op.i, 1)
+		case 5:
+			r.dial(op.i, 2)
+		case 6:
+			r.send(op.i)
 		case 1:
 			r.handlerStep(op.i)
 		case 2:
@@ -407,35 +463,66 @@ func engShutdown(seed int64, tier string, args []string, out *sx.Out) {
 		v[0] = 5
 		return v
 	}
-	// family 1: every combination of handler positions (0 = dialed only after Close has started,
-	// 1 spawned, 2 after ClientsWg.Add, 3 in Clients, 4 serving) of two connections at the moment
-	// Close starts, then the closer's steps interleaved at random with the handlers' steps
+	// position of a connection at the moment Close starts:
+	//   0 dialed only after Close has started      1 spawned (attach.start), CONNECT on the wire
+	//   2 CONNECT read, before Clients.Add         3 in Clients, before CONNACK        4 serving
+	//   5 nothing sent, handler waiting for the CONNECT      6 half of the CONNECT sent, handler waiting
+	//   7 nothing sent, handler spawned but not started
+	const npos = 8
+	prefixOps := func(i, pos int) []shOp {
+		switch {
+		case pos == 0:
+			return nil
+		case pos <= 4:
+			ops := []shOp{{0, i}}
+			for s := 1; s < pos; s++ {
+				ops = append(ops, shOp{1, i})
+			}
+			return ops
+		case pos == 5:
+			return []shOp{{4, i}, {1, i}}
+		case pos == 6:
+			return []shOp{{5, i}, {1, i}}
+		}
+		return []shOp{{4, i}}
+	}
+	lateDial := func(i int) shOp {
+		switch rng.Intn(4) {
+		case 0:
+			return shOp{4, i}
+		case 1:
+			return shOp{5, i}
+		}
+		return shOp{0, i}
+	}
+	// family 1: every combination of positions of two connections, then the closer's steps
+	// interleaved at random with the handlers' steps, late dials, the silent clients sending their
+	// CONNECT late, going away, or staying silent
 	family := func(n int, pos []int, extraRandom bool) {
 		var ops []shOp
 		for i := 0; i < n; i++ {
-			if pos[i] > 0 {
-				ops = append(ops, shOp{0, i})
-				for s := 1; s < pos[i]; s++ {
-					ops = append(ops, shOp{1, i})
-				}
-			}
+			ops = append(ops, prefixOps(i, pos[i])...)
 		}
-		// the rest: closer steps, handler steps, late dials, occasionally a client leaving
 		var rest []shOp
 		for k := 0; k < 5; k++ {
 			rest = append(rest, shOp{2, 0})
 		}
 		for i := 0; i < n; i++ {
 			if pos[i] == 0 {
-				rest = append(rest, shOp{0, i})
+				rest = append(rest, lateDial(i))
 			}
-			for s := 0; s < 4; s++ {
+			for s := 0; s < 5; s++ {
 				if extraRandom || rng.Intn(2) == 0 {
 					rest = append(rest, shOp{1, i})
 				}
 			}
-			if rng.Intn(6) == 0 {
-				rest = append(rest, shOp{3, i})
+			switch rng.Intn(4) {
+			case 0, 1:
+				rest = append(rest, shOp{6, i}) // (no effect if the CONNECT has been sent)
+			case 2:
+				if pos[i] >= 5 || rng.Intn(3) == 0 {
+					rest = append(rest, shOp{3, i})
+				}
 			}
 		}
 		// random interleaving that keeps the closer's first step first with probability 1/2
@@ -453,27 +540,23 @@ func engShutdown(seed int64, tier string, args []string, out *sx.Out) {
 	}
 	reps := 1
 	if tier == "thorough" {
-		reps = 12
+		reps = 8
 	}
 	for rep := 0; rep < reps; rep++ {
-		for a := 0; a <= 4; a++ {
-			for b := 0; b <= 4; b++ {
+		for a := 0; a < npos; a++ {
+			for b := 0; b < npos; b++ {
 				family(2, []int{a, b}, rep%2 == 1)
 			}
 		}
 	}
-	// family 2: the closer runs to completion (or into Wait) while the handlers stay where they are
-	for a := 0; a <= 4; a++ {
-		for b := a; b <= 4; b++ {
+	// family 2: the closer runs to completion (or into Wait) while the handlers stay where they are;
+	// afterwards the silent clients send their CONNECT (first connection) or go away (second)
+	for a := 0; a < npos; a++ {
+		for b := a; b < npos; b++ {
 			var ops []shOp
 			pos := []int{a, b}
 			for i := 0; i < 2; i++ {
-				if pos[i] > 0 {
-					ops = append(ops, shOp{0, i})
-					for s := 1; s < pos[i]; s++ {
-						ops = append(ops, shOp{1, i})
-					}
-				}
+				ops = append(ops, prefixOps(i, pos[i])...)
 			}
 			for k := 0; k < 5; k++ {
 				ops = append(ops, shOp{2, 0})
@@ -483,16 +566,19 @@ func engShutdown(seed int64, tier string, args []string, out *sx.Out) {
 					ops = append(ops, shOp{0, i})
 				}
 			}
+			if (a+b)%2 == 1 {
+				ops = append(ops, shOp{6, 0}, shOp{3, 1})
+			}
 			runShutdownCase(out, []byte{5, 4}, ops)
 		}
 	}
 	// family 3: three connections, random positions and interleavings
 	n3 := 20
 	if tier == "thorough" {
-		n3 = 1500
+		n3 = 1200
 	}
 	for k := 0; k < n3; k++ {
-		family(3, []int{rng.Intn(5), rng.Intn(5), rng.Intn(5)}, rng.Intn(2) == 0)
+		family(3, []int{rng.Intn(npos), rng.Intn(npos), rng.Intn(npos)}, rng.Intn(2) == 0)
 	}
 	// dialing after Close has returned is refused
 	runShutdownCase(out, []byte{5, 5}, []shOp{{0, 0}, {1, 0}, {1, 0}, {1, 0}, {2, 0}, {2, 0}, {2, 0}, {1, 0}, {2, 0}, {0, 1}})
